@@ -594,6 +594,8 @@ func c02exec(line string) Result {
 		return c02execMulti(line)
 	case "fn":
 		return c02execFn(line)
+	case "mk":
+		return c02execMk(line)
 	}
 	return Result{Out: "bad-op", Tags: []string{"bad-op"}}
 }
@@ -805,9 +807,10 @@ func c02gen1(r *rand.Rand, tier string, emit func(string)) {
 	}
 	c02genMulti(g)
 	c02genFn(g)
+	c02genMk(g)
 	// malformed stream
 	for _, s := range []string{"st", "st ADD int g v", "st FOO int g v int - 1,1", "st ADD int9 g v int - 1,1", "st ADD int zz v int - 1,1", "st ADD int g q int - 1,1",
-		"st ADD int g v int - 1", "st ADD int g c int zz 1", "st INC int g v int - 1,1", "st ADD int g - int - 1", "xx", "multi", "multi int", "fn", "fn zz cbc", "fn r1 cxc", "seq int G 0 X += | 1,2,3,4,5,6"} {
+		"st ADD int g v int - 1", "st ADD int g c int zz 1", "st INC int g v int - 1,1", "st ADD int g - int - 1", "xx", "multi", "multi int", "mk", "mk arr G K MK = k2", "mk zz G K MK = k2 #7", "mk arr G K MK = #7 k2", "fn", "fn zz cbc", "fn r1 cxc", "seq int G 0 X += | 1,2,3,4,5,6"} {
 		emit(s)
 	}
 }
